@@ -24,7 +24,7 @@ Proof.
 Qed.
 
 Lemma read_field_lf : forall f rest dst, ~ In 9 f -> ~ In 10 f ->
-  read_field (f ++ 10 :: rest) dst = (strip_cr (dst ++ f), S (length f), true, rest).
+  read_field (f ++ 10 :: rest) dst = (dst ++ strip_cr f, S (length f), true, rest).
 Proof.
   intros f rest dst H9 H10. unfold read_field. rewrite scan_field_app by (auto). reflexivity.
 Qed.
@@ -146,7 +146,7 @@ Proof.
   - cbn [join read_others]. rewrite read_field_lf by assumption.
     cbn [concat] in H13. rewrite app_nil_r in H13.
     cbn [Nat.eqb concat cum_ends]. rewrite app_nil_r.
-    rewrite strip_cr_no13 by exact H13. rewrite app_length. repeat (f_equal; try lia).
+    rewrite strip_cr_no13 by (intro Hin; apply H13; apply in_or_app; right; exact Hin). rewrite app_length. repeat (f_equal; try lia).
   - rewrite join_cons2. rewrite <- app_assoc. cbn [app read_others].
     rewrite read_field_tab by assumption. cbn [Nat.eqb].
     rewrite IH.
@@ -224,7 +224,7 @@ Proof.
   destruct others as [|o os].
   - cbn [join]. rewrite read_field_lf by assumption. cbn [concat app] in *.
     rewrite concat_app in *. cbn [concat] in *. rewrite app_nil_r in *.
-    rewrite strip_cr_no13 by exact H13.
+    rewrite strip_cr_no13 by (intro Hin; apply H13; apply in_or_app; right; exact Hin).
     rewrite Hmerge by (rewrite app_length, cum_ends_length; cbn; lia).
     rewrite cum_ends_app. cbn [cum_ends length]. rewrite app_length, !Nat.add_0_l.
     f_equal; [f_equal; rewrite ?app_length; cbn [length]; lia
@@ -549,3 +549,221 @@ Proof.
     + unfold rec_of_cols. cbn [bf_std]. rewrite cum_ends_length. rewrite <- Hn. now apply bed_std_columns_length.
     + cbn [length] in Hf. lia.
 Qed.
+
+(* ---- after a successful read no accessor can panic (for EVERY input text) ---- *)
+(* the bounds are nondecreasing from [lo] and end at or below [hi] *)
+Fixpoint chain (lo : nat) (ends : list nat) (hi : nat) : Prop :=
+  match ends with
+  | [] => (lo <= hi)%nat
+  | e :: t => (lo <= e)%nat /\ chain e t hi
+  end.
+
+Lemma chain_weaken : forall ends lo hi hi', chain lo ends hi -> (hi <= hi')%nat -> chain lo ends hi'.
+Proof.
+  induction ends as [|e t IH]; intros lo hi hi' H Hh; cbn [chain] in *; [lia|].
+  destruct H as [H1 H2]. split; [exact H1|]. eapply IH; eassumption.
+Qed.
+
+Lemma chain_snoc : forall ends lo hi e, chain lo ends hi -> (hi <= e)%nat -> chain lo (ends ++ [e]) e.
+Proof.
+  induction ends as [|x t IH]; intros lo hi e H He; cbn [chain app] in *; [lia|].
+  destruct H as [H1 H2]. split; [exact H1|]. eapply IH; eassumption.
+Qed.
+
+Lemma chain_field : forall ends lo hi k, chain lo ends hi -> (k < length ends)%nat ->
+  (match k with O => lo | S j => nth j ends O end <= nth k ends O)%nat /\ (nth k ends O <= hi)%nat.
+Proof.
+  induction ends as [|e t IH]; intros lo hi k H Hk; cbn [length] in Hk; [lia|].
+  cbn [chain] in H. destruct H as [H1 H2].
+  assert (Hle : forall l a b, chain a l b -> (a <= b)%nat).
+  { induction l as [|y l' IHl]; intros a b Hc; cbn [chain] in Hc; [exact Hc|].
+    destruct Hc as [Ha Hb]. apply IHl in Hb. lia. }
+  destruct k as [|k].
+  - cbn [nth]. split; [exact H1|]. now apply (Hle t).
+  - cbn [nth]. destruct (IH e hi k H2 ltac:(lia)) as [Ha Hb]. split; [|exact Hb].
+    destruct k as [|j]; exact Ha.
+Qed.
+
+Lemma read_field_grows : forall src dst dst1 n1 eol src1,
+  read_field src dst = (dst1, n1, eol, src1) -> (length dst <= length dst1)%nat.
+Proof.
+  intros src dst dst1 n1 eol src1 H. unfold read_field in H.
+  destruct (scan_field src) as [[f d] r]. destruct d as [c|]; injection H as H1 _ _ _; subst dst1;
+    rewrite app_length; lia.
+Qed.
+
+Lemma read_required_chain : forall k src dst ends len s d e l,
+  chain 0 ends (length dst) ->
+  read_required k src dst ends len = (true, s, d, e, l) -> chain 0 e (length d).
+Proof.
+  induction k as [|k IH]; intros src dst ends len s d e l Hc H.
+  - cbn in H. injection H as _ Hd He _. now subst.
+  - cbn [read_required] in H. destruct (read_field src dst) as [[[dst1 n1] eol] src1] eqn:Ef.
+    destruct eol; [discriminate|]. apply read_field_grows in Ef.
+    eapply IH; [|exact H]. eapply chain_snoc; eassumption.
+Qed.
+
+Lemma read_others_chain : forall fuel src dst oth len pre s d o l,
+  chain 0 (pre ++ oth) (length dst) ->
+  read_others fuel src dst oth len = Some (s, d, o, l) -> chain 0 (pre ++ o) (length d).
+Proof.
+  induction fuel as [|fuel IH]; intros src dst oth len pre s d o l Hc H; [discriminate|].
+  cbn [read_others] in H. destruct (read_field src dst) as [[[dst1 n1] eol] src1] eqn:Ef.
+  apply read_field_grows in Ef.
+  destruct (Nat.eqb n1 0).
+  - injection H as _ Hd Ho _. subst. eapply chain_weaken; eassumption.
+  - assert (Hc1 : chain 0 (pre ++ oth ++ [length dst1]) (length dst1))
+      by (rewrite app_assoc; eapply chain_snoc; eassumption).
+    destruct eol.
+    + injection H as _ Hd Ho _. now subst.
+    + eapply IH; [|exact H]. exact Hc1.
+Qed.
+
+(* the invariant a successful read establishes, whatever the record held before *)
+Theorem bed_read_ok_bounds : forall n src old k,
+  (1 <= n)%nat -> length (bf_std old) = n -> ro_res (bed_read_record n src old) = Ok k ->
+  let f := ro_rec (bed_read_record n src old) in
+  length (bf_std f) = n /\ chain 0 (bf_std f ++ bf_oth f) (length (bf_buf f)).
+Proof.
+  intros n src old k Hn Hold Hres. unfold bed_read_record in *.
+  destruct (read_required (n - 1) (skip_comments src) [] [] 0) as [[[[ok src1] dst1] ends] len] eqn:Er.
+  destruct ok; cbn [negb] in *; [|discriminate].
+  pose proof (read_required_len _ _ _ _ _ _ _ _ _ Er) as Hlen. cbn [length] in Hlen.
+  assert (Hch : chain 0 ends (length dst1)).
+  { eapply read_required_chain; [|exact Er]. cbn [chain length]. lia. }
+  destruct (read_field src1 dst1) as [[[dst2 n2] eol] src2] eqn:Ef.
+  pose proof (read_field_grows _ _ _ _ _ _ Ef) as Hg.
+  assert (Hm : (ends ++ [length dst2]) ++ skipn (length (ends ++ [length dst2])) (bf_std old) = ends ++ [length dst2]).
+  { rewrite skipn_all2; [now rewrite app_nil_r|]. rewrite app_length. cbn [length]. lia. }
+  assert (Hc2 : chain 0 (ends ++ [length dst2]) (length dst2)) by (eapply chain_snoc; eassumption).
+  destruct eol.
+  - cbn [ro_rec bf_std bf_oth bf_buf]. rewrite Hm, app_nil_r. split; [|exact Hc2].
+    rewrite app_length. cbn [length]. lia.
+  - destruct (read_others (S (length src2)) src2 dst2 [] (len + n2)) as [[[[src3 dst3] oth] len3]|] eqn:Eo;
+      cbn [ro_res] in Hres; [|discriminate].
+    cbn [ro_rec bf_std bf_oth bf_buf]. rewrite Hm. split; [rewrite app_length; cbn [length]; lia|].
+    eapply read_others_chain; [|exact Eo]. now rewrite app_nil_r.
+Qed.
+
+Lemma slice_ok : forall buf a b, (a <= b)%nat -> (b <= length buf)%nat -> exists s, slice buf a b = Ok s.
+Proof.
+  intros buf a b H1 H2. unfold slice.
+  apply Nat.leb_le in H1. apply Nat.leb_le in H2. rewrite H1, H2. eexists. reflexivity.
+Qed.
+
+Definition bounds_ok (n : nat) (f : bed_fields) : Prop :=
+  length (bf_std f) = n /\ chain 0 (bf_std f ++ bf_oth f) (length (bf_buf f)).
+
+Lemma std_field_ok : forall n f i, bounds_ok n f -> (i < n)%nat -> exists s, std_field f i = Ok s.
+Proof.
+  intros n f i [Hl Hc] Hi. unfold std_field.
+  assert (Hk : (i < length (bf_std f ++ bf_oth f))%nat) by (rewrite app_length; lia).
+  destruct (chain_field _ _ _ i Hc Hk) as [Ha Hb].
+  rewrite app_nth1 in Ha, Hb by lia.
+  apply slice_ok; [|exact Hb].
+  destruct i as [|j]; [lia|]. rewrite app_nth1 in Ha by lia. exact Ha.
+Qed.
+
+Lemma oth_get_ok : forall n f i, (1 <= n)%nat -> bounds_ok n f -> (i < length (bf_oth f))%nat ->
+  exists s, oth_get n f i = Some (Ok s).
+Proof.
+  intros n f i Hn [Hl Hc] Hi. unfold oth_get.
+  destruct (nth_error (bf_oth f) i) as [e|] eqn:Ee; [|apply nth_error_None in Ee; lia].
+  assert (Hk : (n + i < length (bf_std f ++ bf_oth f))%nat) by (rewrite app_length; lia).
+  destruct (chain_field _ _ _ (n + i)%nat Hc Hk) as [Ha Hb].
+  assert (He : nth (n + i) (bf_std f ++ bf_oth f) O = e).
+  { rewrite app_nth2 by lia. replace (n + i - length (bf_std f))%nat with i by lia.
+    now apply nth_error_nth. }
+  rewrite He in Ha, Hb.
+  assert (Hs : exists s, slice (bf_buf f)
+            (match i with
+             | O => nth (n - 1) (bf_std f) O
+             | S j => match nth_error (bf_oth f) j with Some s => s | None => nth (n - 1) (bf_std f) O end
+             end) e = Ok s).
+  { apply slice_ok; [|exact Hb].
+    destruct i as [|j].
+    - replace (n + 0)%nat with (S (n - 1)) in Ha by lia. rewrite app_nth1 in Ha by lia. exact Ha.
+    - replace (n + S j)%nat with (S (n + j)) in Ha by lia.
+      rewrite app_nth2 in Ha by lia. replace (n + j - length (bf_std f))%nat with j in Ha by lia.
+      destruct (nth_error (bf_oth f) j) as [x|] eqn:Ex; [|apply nth_error_None in Ex; lia].
+      now rewrite (nth_error_nth _ _ O Ex) in Ha. }
+  destruct Hs as [s Hs]. exists s. now rewrite Hs.
+Qed.
+
+Lemma oth_iter_ok : forall n f k i, (1 <= n)%nat -> bounds_ok n f -> (i + k = length (bf_oth f))%nat ->
+  exists l, oth_iter k n f i = Ok l.
+Proof.
+  intros n f k. induction k as [|k IH]; intros i Hn Hb Hik; [exists []; reflexivity|].
+  cbn [oth_iter]. destruct (oth_get_ok n f i Hn Hb ltac:(lia)) as [s Hs]. rewrite Hs.
+  destruct (IH (S i) Hn Hb ltac:(lia)) as [l Hl]. rewrite Hl. eexists. reflexivity.
+Qed.
+
+Definition view_no_panic (v : bed_view) : Prop :=
+  bv_name v <> Panic /\ bv_start v <> Panic /\ bv_end v <> Panic
+  /\ bv_nm v <> Some Panic /\ bv_score v <> Some Panic /\ bv_strand v <> Some Panic
+  /\ bv_others v <> Panic.
+
+Lemma parse_start_no_panic : forall s, bed_parse_start s <> Panic.
+Proof. intro s. unfold bed_parse_start. destruct (parse_dec s) as [x|]; [destruct (u64_max <=? x)|]; discriminate. Qed.
+Lemma view_end_no_panic : forall s, view_end s <> Panic.
+Proof.
+  intro s. unfold view_end, bed_parse_end. destruct (bytes_eqb s [48]); [discriminate|].
+  destruct (parse_dec s) as [x|]; [destruct ((x =? 0) || (u64_max <? x))|]; discriminate.
+Qed.
+Lemma parse_score_no_panic : forall s, bed_parse_score s <> Panic.
+Proof. intro s. unfold bed_parse_score. destruct (parse_dec s) as [x|]; [destruct (65535 <? x)|]; discriminate. Qed.
+Lemma parse_strand_no_panic : forall s, bed_parse_strand s <> Panic.
+Proof.
+  intro s. unfold bed_parse_strand.
+  destruct (bytes_eqb s [46]); [discriminate|]. destruct (bytes_eqb s [43]); [discriminate|].
+  destruct (bytes_eqb s [45]); discriminate.
+Qed.
+
+Theorem bounds_ok_no_panic : forall n f, (3 <= n)%nat -> bounds_ok n f -> view_no_panic (bed_view_of n f).
+Proof.
+  intros n f Hn Hb. unfold view_no_panic, bed_view_of.
+  cbn [bv_name bv_start bv_end bv_nm bv_score bv_strand bv_others].
+  destruct (std_field_ok n f 0 Hb ltac:(lia)) as [s0 H0].
+  destruct (std_field_ok n f 1 Hb ltac:(lia)) as [s1 H1].
+  destruct (std_field_ok n f 2 Hb ltac:(lia)) as [s2 H2].
+  rewrite H0, H1, H2. cbn [res_bind].
+  repeat split; try discriminate.
+  - apply parse_start_no_panic.
+  - apply view_end_no_panic.
+  - destruct (Nat.leb 4 n) eqn:E; [|discriminate]. apply Nat.leb_le in E.
+    destruct (std_field_ok n f 3 Hb ltac:(lia)) as [s3 H3]. rewrite H3. discriminate.
+  - destruct (Nat.leb 5 n) eqn:E; [|discriminate]. apply Nat.leb_le in E.
+    destruct (std_field_ok n f 4 Hb ltac:(lia)) as [s4 H4]. rewrite H4. cbn [res_bind].
+    intro Hp. injection Hp as Hp. revert Hp. apply parse_score_no_panic.
+  - destruct (Nat.leb 6 n) eqn:E; [|discriminate]. apply Nat.leb_le in E.
+    destruct (std_field_ok n f 5 Hb ltac:(lia)) as [s5 H5]. rewrite H5. cbn [res_bind].
+    intro Hp. injection Hp as Hp. revert Hp. apply parse_strand_no_panic.
+  - destruct (oth_iter_ok n f (length (bf_oth f)) 0 ltac:(lia) Hb ltac:(lia)) as [l Hl]. rewrite Hl. discriminate.
+Qed.
+
+(* for EVERY input text and EVERY previous record state: a read that returns Ok leaves a record
+   on which no accessor panics, and neither does the owned conversion *)
+Theorem bed_read_ok_no_panic : forall n src old k,
+  (3 <= n)%nat -> length (bf_std old) = n -> ro_res (bed_read_record n src old) = Ok k ->
+  view_no_panic (bed_view_of n (ro_rec (bed_read_record n src old)))
+  /\ bed_owned n (bed_view_of n (ro_rec (bed_read_record n src old))) <> Panic.
+Proof.
+  intros n src old k Hn Hold Hres.
+  pose proof (bed_read_ok_bounds n src old k ltac:(lia) Hold Hres) as Hb.
+  pose proof (bounds_ok_no_panic n _ Hn Hb) as Hv. split; [exact Hv|].
+  destruct Hv as (V1 & V2 & V3 & V4 & V5 & V6 & V7). unfold bed_owned.
+  set (v := bed_view_of n (ro_rec (bed_read_record n src old))) in *.
+  destruct (bv_name v) as [a| |]; cbn [res_bind]; try discriminate; try congruence.
+  destruct (bv_start v) as [b| |]; cbn [res_bind]; try discriminate; try congruence.
+  destruct (bv_end v) as [c| |]; cbn [res_bind]; try discriminate; try congruence.
+  destruct (bv_nm v) as [[d| |]|]; cbn [opt_res res_bind]; try discriminate; try congruence;
+  destruct (bv_score v) as [[e| |]|]; cbn [opt_res res_bind]; try discriminate; try congruence;
+  destruct (bv_strand v) as [[g| |]|]; cbn [opt_res res_bind]; try discriminate; try congruence;
+  destruct (bv_others v) as [h| |]; cbn [res_bind]; try discriminate; try congruence.
+Qed.
+
+(* after a FAILED read the accessors can still panic (buffer cleared, old bounds kept) *)
+Theorem bed_failed_read_accessor_panics :
+  ro_res (bed_read_record 3 [10] (bed_default 3)) = Err InvalidData /\
+  bv_name (bed_view_of 3 (ro_rec (bed_read_record 3 [10] (bed_default 3)))) = Panic.
+Proof. split; vm_compute; reflexivity. Qed.
